@@ -2,61 +2,142 @@ package c09
 
 import (
 	"fmt"
+	"strings"
+	"sync"
 
 	"github.com/php-any/origami/data"
-	"github.com/php-any/origami/std/channel"
+	"verif/harness/vh"
 )
 
-// The property is about what a script sees: $ch->send / receive / close / isClosed / len. The
-// harness therefore drives the channel through the script-level method objects of
-// std/channel.ChannelClass (channel_methods.go), not through *channel.Channel directly, so a change
-// in that glue (a shortcut before Receive, a swallowed result, …) is executed under every forced
-// schedule and stress round as well.
+// The property is about what a script sees: $ch->send / receive / close / isClosed / len on a
+// Channel object shared between spawned closures. Every operation the harness performs — in the
+// forced schedules, in the stress rounds and in the first-call storms — therefore takes exactly the
+// path a script call takes, ON THE CALLING GOROUTINE, at call time:
+//
+//	closure call (node.LambdaExpression.Call, fresh context, as std/spawn.go does)
+//	  -> `$ch->send($v)` (the node the parser builds for the method call)
+//	  -> data.ClassValue.GetMethod -> ChannelClass.GetMethod           (class / dispatch layer)
+//	  -> visibility check, GetVariables/GetParams, argument binding
+//	  -> Channel*Method.Call -> Channel.Send/Receive/Close/IsClosed/Len/Cap
+//
+// Nothing is resolved ahead of time or on another goroutine: opsScript below is parsed once per
+// child process by origami's own parser on a VM built the way the CLI builds it, the closures it
+// hands over are what a script would pass to spawn(), and the Channel object is what `new Channel($cap)`
+// evaluates to. A change anywhere in that path (a cache in the class object, a shortcut in a method
+// object, a shared scratch field …) is executed by every goroutine of every schedule.
 
-type argCtx struct {
-	data.Context // nil: the channel methods only read positional arguments
-	args         []data.Value
+const opsScript = `<?php
+verif_c09_ops(
+    function($cap) { return new Channel($cap); },
+    function($ch, $v) { return $ch->send($v); },
+    function($ch) { return $ch->receive(); },
+    function($ch) { return $ch->close(); },
+    function($ch) { return $ch->isClosed(); },
+    function($ch) { return $ch->len(); },
+    function($ch) { return $ch->cap(); }
+);
+`
+
+const (
+	opNew = iota
+	opSend
+	opReceive
+	opClose
+	opIsClosed
+	opLen
+	opCap
+	nOps
+)
+
+var opNames = [nOps]string{"new Channel", "send", "receive", "close", "isClosed", "len", "cap"}
+
+type scriptEnv struct {
+	env  *vh.VMEnv
+	base data.Context // the context the script ran verif_c09_ops in; call contexts are created from it as spawn does
+	fn   [nOps]*data.FuncValue
 }
 
-func (a *argCtx) GetIndexValue(i int) (data.Value, bool) {
-	if i < 0 || i >= len(a.args) {
-		return nil, false
-	}
-	return a.args[i], true
-}
+type opsFn struct{ sink *scriptEnv }
 
-type schan struct {
-	cls                                   data.ClassStmt
-	send, receive, close_, isClosed, len_ data.Method
-}
-
-func newSchan(capacity int) *schan {
-	cls := channel.NewChannelClass()
-	s := &schan{cls: cls}
-	get := func(n string) data.Method {
-		m, ok := cls.GetMethod(n)
+func (e *opsFn) Call(ctx data.Context) (data.GetValue, data.Control) {
+	for i := 0; i < nOps; i++ {
+		v, _ := ctx.GetIndexValue(i)
+		fv, ok := v.(*data.FuncValue)
 		if !ok {
-			panic("std/channel: script method " + n + " is gone")
+			panic(fmt.Sprintf("verif_c09_ops: argument %d is %T, not a closure", i, v))
 		}
-		return m
+		e.sink.fn[i] = fv
 	}
-	s.send, s.receive, s.close_, s.isClosed, s.len_ = get("send"), get("receive"), get("close"), get("isClosed"), get("len")
-	if _, acl := cls.GetConstruct().Call(&argCtx{args: []data.Value{data.NewIntValue(capacity)}}); acl != nil {
-		panic("std/channel: __construct failed: " + acl.AsString())
+	e.sink.base = ctx
+	return nil, nil
+}
+func (e *opsFn) GetName() string { return "verif_c09_ops" }
+func (e *opsFn) GetParams() []data.GetValue {
+	p := make([]data.GetValue, nOps)
+	for i := range p {
+		p[i] = data.NewParameter(fmt.Sprintf("f%d", i), i)
 	}
-	return s
+	return p
+}
+func (e *opsFn) GetVariables() []data.Variable {
+	p := make([]data.Variable, nOps)
+	for i := range p {
+		p[i] = data.NewVariable(fmt.Sprintf("f%d", i), i, nil)
+	}
+	return p
 }
 
-func call(m data.Method, args ...data.Value) data.GetValue {
-	v, acl := m.Call(&argCtx{args: args})
+var (
+	envOnce sync.Once
+	theEnv  *scriptEnv
+)
+
+// getEnv: one VM per (child) process.
+func getEnv() *scriptEnv {
+	envOnce.Do(func() {
+		e := &scriptEnv{env: vh.NewEnv()}
+		e.env.VM.AddFunc(&opsFn{e})
+		o := e.env.RunSource(opsScript, "/verif-c09-ops.php")
+		if o.Kind != "ok" || e.base == nil {
+			panic("std/channel: the script-level operations cannot be set up: " + o.String() + " " + strings.Join(e.env.Thrown, "; "))
+		}
+		theEnv = e
+	})
+	return theEnv
+}
+
+// callFn calls a script closure with positional arguments the way call_user_func / spawn do: a
+// fresh context created from the defining script's context, arguments bound by index.
+func (e *scriptEnv) callFn(op int, args ...data.Value) data.GetValue {
+	cctx := e.base.CreateContext(make([]data.Variable, len(args)))
+	for i, a := range args {
+		cctx.SetIndexZVal(i, data.NewZVal(a))
+	}
+	v, acl := e.fn[op].Call(cctx)
 	if acl != nil {
-		panic(fmt.Sprintf("script method %s threw: %s", m.GetName(), acl.AsString()))
+		panic(fmt.Sprintf("script call %s threw: %s", opNames[op], acl.AsString()))
 	}
 	return v
 }
 
+// schan: one script-level Channel object (`new Channel($cap)`).
+type schan struct {
+	e   *scriptEnv
+	obj data.Value
+}
+
+func newSchan(capacity int) *schan {
+	e := getEnv()
+	v := e.callFn(opNew, data.NewIntValue(capacity))
+	obj, ok := v.(*data.ClassValue)
+	if !ok {
+		panic(fmt.Sprintf("new Channel(%d) evaluated to %T", capacity, v))
+	}
+	return &schan{e: e, obj: obj}
+}
+
 func (s *schan) Send(v data.Value) bool {
-	b, ok := call(s.send, v).(*data.BoolValue)
+	b, ok := s.e.callFn(opSend, s.obj, v).(*data.BoolValue)
 	if !ok {
 		panic("send() did not return a bool")
 	}
@@ -65,17 +146,17 @@ func (s *schan) Send(v data.Value) bool {
 
 // Receive: the script sees null for "closed and drained" (the harness only sends ints).
 func (s *schan) Receive() (data.Value, bool) {
-	v := call(s.receive)
+	v := s.e.callFn(opReceive, s.obj)
 	if _, isNull := v.(*data.NullValue); isNull || v == nil {
 		return nil, false
 	}
 	return v.(data.Value), true
 }
 
-func (s *schan) Close() { call(s.close_) }
+func (s *schan) Close() { s.e.callFn(opClose, s.obj) }
 
 func (s *schan) IsClosed() bool {
-	b, ok := call(s.isClosed).(*data.BoolValue)
+	b, ok := s.e.callFn(opIsClosed, s.obj).(*data.BoolValue)
 	if !ok {
 		panic("isClosed() did not return a bool")
 	}
@@ -83,9 +164,17 @@ func (s *schan) IsClosed() bool {
 }
 
 func (s *schan) Len() int {
-	iv, ok := call(s.len_).(*data.IntValue)
+	iv, ok := s.e.callFn(opLen, s.obj).(*data.IntValue)
 	if !ok {
 		panic("len() did not return an int")
+	}
+	return iv.Value
+}
+
+func (s *schan) Cap() int {
+	iv, ok := s.e.callFn(opCap, s.obj).(*data.IntValue)
+	if !ok {
+		panic("cap() did not return an int")
 	}
 	return iv.Value
 }
